@@ -24,6 +24,11 @@ namespace OP2Utility
 
 	BitmapFile BitmapFile::CreateIndexed(uint16_t bitCount, uint32_t width, int32_t height)
 	{
+		// The image header stores the width as a signed 32-bit value
+		if (width > static_cast<uint32_t>(std::numeric_limits<int32_t>::max())) {
+			throw std::runtime_error("Bitmap width of " + std::to_string(width) + " is not supported");
+		}
+
 		// The most negative height has no absolute value (std::abs would be undefined)
 		if (height == std::numeric_limits<int32_t>::min()) {
 			throw std::runtime_error("Bitmap height of " + std::to_string(height) + " is not supported");
